@@ -199,7 +199,7 @@ func genLegacy(t *Tracer, m *Meta, tier string, seed int64) {
 	// (1) universes
 	budgetU := 900
 	if !quick {
-		budgetU = 24000
+		budgetU = 12000
 	}
 	for ui, u := range universes {
 		strs := u.Strings()
